@@ -15,7 +15,7 @@ STUBS = []
 OUTSIDE = ["async references (C10)", "class-level references", "references nested deeper than one list level"]
 ASSUMPTIONS = ["x has bounds (0, 50); source values symbolic ints; a source value whose resolution is outside the bounds must be "
                "rejected (the source assignment raises) and leaves x at its previous value"]
-N_OPS = 9
+N_OPS = 10
 KINDS = ['Parameter', 'bind', 'rx', 'depends function']
 
 
@@ -126,6 +126,8 @@ def prog(kind: int, at_ctor: bool, k: int, last_is_update: bool, o1: int, v1: in
             t.y = s0.param.v
             st['ysrc'] = 0
             st['cury'] = s0.v
+        elif o == 9:                          # param.trigger on the linked parameters: no value and no link changes
+            t.param.trigger('x', 'y')
         elif o == 8:                          # relink the nested container
             t.z = [s0.param.v, 7]
             st['zsrc'] = 0
@@ -161,4 +163,4 @@ def shards(tier):
 def bounds(tier):
     return dict(program_length='3, the last operation being a source update' if tier == 'quick' else 4, reference_kinds=KINDS, link_time=['constructor', 'later assignment'],
                 opcodes=['set s0.v', 'set s1.v', 'relink x to s1', 'override x', 'relink x to s0', 'update-context enter',
-                         'update-context exit', 'relink y', 'relink nested z'])
+                         'update-context exit', 'relink y', 'relink nested z', "trigger('x','y')"])
